@@ -91,6 +91,17 @@ func main() {
 		usage()
 	}
 	cmd, name := os.Args[1], os.Args[2]
+	if cmd == "facts" {
+		// harness facts -out <dir>
+		fs := flag.NewFlagSet(cmd, flag.ExitOnError)
+		out := fs.String("out", "", "output directory")
+		_ = fs.Parse(os.Args[2:])
+		if err := runFacts(*out); err != nil {
+			fmt.Fprintln(os.Stderr, "facts:", err)
+			os.Exit(1)
+		}
+		return
+	}
 	s, ok := streams[name]
 	if !ok {
 		usage()
